@@ -6,6 +6,7 @@
 import XgiModel.Lemmas.HGWF
 import XgiModel.Lemmas.HGShuffle
 import XgiModel.Lemmas.HGEffects
+import XgiModel.Lemmas.HGAttrs
 import Mathlib.Tactic.Tauto
 import Mathlib.Tactic.ByContra
 
@@ -182,6 +183,147 @@ theorem add_edges_item_precedence (fmt : Fmt) (attr : Attrs) (s : HG) (it : Edge
   rw [this]
   unfold addEdgeAt
   rw [foldl_link_eattr]; simp [updEdgeAttr, newEdgeAttr]
+
+/-! ### the attribute setters -/
+
+/-- `set_node_attributes({id: value}, name)`: the call never raises; nothing but node attribute dicts changes; a node
+    that is named gets `name := value` (other keys of its dict stay), every other node keeps its dict; an ID that is
+    not a node is skipped with a warning, and the warning is issued exactly when there is such an ID -/
+theorem set_node_attributes_dict_name {s : HG} (vals : List (PyId × Val)) (name : String)
+    (hk : (vals.map (·.1)).Nodup) :
+    SameButNattr s (setNodeAttrs s (.dictName vals name)).1 ∧
+    (∀ n v, (n, v) ∈ vals → n ∈ s.nattrK →
+      (setNodeAttrs s (.dictName vals name)).1.nattr n = (s.nattr n).set name v) ∧
+    (∀ n, (n ∉ vals.map (·.1) ∨ n ∉ s.nattrK) → (setNodeAttrs s (.dictName vals name)).1.nattr n = s.nattr n) ∧
+    (setNodeAttrs s (.dictName vals name)).2 = (if vals.all (fun p => p.1 ∈ s.nattrK) then .ok else .warned) := by
+  have key := bulk_nodeSet (fun v : Val => [(name, v)]) vals s
+  have e : setNodeAttrs s (.dictName vals name) = bulk (nodeSetStep (fun v : Val => [(name, v)])) s vals := rfl
+  rw [e]
+  refine ⟨key.1, ?_, ?_, key.2.2⟩
+  · intro n v hv hn
+    rw [key.2.1 n, if_pos hn, applyFor_unique _ vals n v _ hk hv]; rfl
+  · intro n hn
+    rw [key.2.1 n]
+    by_cases h : n ∈ s.nattrK
+    · rw [if_pos h]; exact applyFor_absent _ vals n _ (hn.resolve_right (fun x => x h))
+    · rw [if_neg h]
+
+/-- `set_node_attributes({id: {key: value}})`: the per-node dict is merged into the node's attribute dict
+    (`dict.update`); same skipping / warning rule -/
+theorem set_node_attributes_dict_of_dict {s : HG} (vals : List (PyId × Attrs)) (hk : (vals.map (·.1)).Nodup) :
+    SameButNattr s (setNodeAttrs s (.dictOfDict vals)).1 ∧
+    (∀ n d, (n, d) ∈ vals → n ∈ s.nattrK →
+      (setNodeAttrs s (.dictOfDict vals)).1.nattr n = Attrs.update (s.nattr n) d) ∧
+    (∀ n, (n ∉ vals.map (·.1) ∨ n ∉ s.nattrK) → (setNodeAttrs s (.dictOfDict vals)).1.nattr n = s.nattr n) ∧
+    (setNodeAttrs s (.dictOfDict vals)).2 = (if vals.all (fun p => p.1 ∈ s.nattrK) then .ok else .warned) := by
+  have key := bulk_nodeSet (fun d : Attrs => d) vals s
+  have e : setNodeAttrs s (.dictOfDict vals) = bulk (nodeSetStep (fun d : Attrs => d)) s vals := rfl
+  rw [e]
+  refine ⟨key.1, ?_, ?_, key.2.2⟩
+  · intro n v hv hn
+    rw [key.2.1 n, if_pos hn, applyFor_unique _ vals n v _ hk hv]
+  · intro n hn
+    rw [key.2.1 n]
+    by_cases h : n ∈ s.nattrK
+    · rw [if_pos h]; exact applyFor_absent _ vals n _ (hn.resolve_right (fun x => x h))
+    · rw [if_neg h]
+
+/-- `set_node_attributes(value, name)` with a constant: every node gets `name := value`, nothing else changes -/
+theorem set_node_attributes_const {s : HG} (h : WF s) (v : Val) (name : String) :
+    SameButNattr s (setNodeAttrs s (.constName v name)).1 ∧
+    (∀ n ∈ s.nodes, (setNodeAttrs s (.constName v name)).1.nattr n = (s.nattr n).set name v) ∧
+    (setNodeAttrs s (.constName v name)).2 = .ok := by
+  have key := foldl_updNodeAttr [(name, v)] s.nodes s h.nodupN
+  refine ⟨key.1, ?_, rfl⟩
+  intro n hn
+  have := key.2 n
+  rw [if_pos hn] at this
+  exact this
+
+/-- a non-dict value without a name is rejected with the library's error and no change -/
+theorem set_attributes_bad (s : HG) :
+    setNodeAttrs s .badNoName = (s, .err .lib) ∧ setEdgeAttrs s .badNoName = (s, .err .lib) := ⟨rfl, rfl⟩
+
+/-- `set_edge_attributes({id: value}, name)` -/
+theorem set_edge_attributes_dict_name {s : HG} (vals : List (PyId × Val)) (name : String)
+    (hk : (vals.map (·.1)).Nodup) :
+    SameButEattr s (setEdgeAttrs s (.dictName vals name)).1 ∧
+    (∀ e v, (e, v) ∈ vals → e ∈ s.eattrK →
+      (setEdgeAttrs s (.dictName vals name)).1.eattr e = (s.eattr e).set name v) ∧
+    (∀ e, (e ∉ vals.map (·.1) ∨ e ∉ s.eattrK) → (setEdgeAttrs s (.dictName vals name)).1.eattr e = s.eattr e) ∧
+    (setEdgeAttrs s (.dictName vals name)).2 = (if vals.all (fun p => p.1 ∈ s.eattrK) then .ok else .warned) := by
+  have key := bulk_edgeSet (fun v : Val => [(name, v)]) vals s
+  have e : setEdgeAttrs s (.dictName vals name) = bulk (edgeSetStep (fun v : Val => [(name, v)])) s vals := rfl
+  rw [e]
+  refine ⟨key.1, ?_, ?_, key.2.2⟩
+  · intro n v hv hn
+    rw [key.2.1 n, if_pos hn, applyFor_unique _ vals n v _ hk hv]; rfl
+  · intro n hn
+    rw [key.2.1 n]
+    by_cases h : n ∈ s.eattrK
+    · rw [if_pos h]; exact applyFor_absent _ vals n _ (hn.resolve_right (fun x => x h))
+    · rw [if_neg h]
+
+/-- `set_edge_attributes({id: {key: value}})` -/
+theorem set_edge_attributes_dict_of_dict {s : HG} (vals : List (PyId × Attrs)) (hk : (vals.map (·.1)).Nodup) :
+    SameButEattr s (setEdgeAttrs s (.dictOfDict vals)).1 ∧
+    (∀ e d, (e, d) ∈ vals → e ∈ s.eattrK →
+      (setEdgeAttrs s (.dictOfDict vals)).1.eattr e = Attrs.update (s.eattr e) d) ∧
+    (∀ e, (e ∉ vals.map (·.1) ∨ e ∉ s.eattrK) → (setEdgeAttrs s (.dictOfDict vals)).1.eattr e = s.eattr e) ∧
+    (setEdgeAttrs s (.dictOfDict vals)).2 = (if vals.all (fun p => p.1 ∈ s.eattrK) then .ok else .warned) := by
+  have key := bulk_edgeSet (fun d : Attrs => d) vals s
+  have e : setEdgeAttrs s (.dictOfDict vals) = bulk (edgeSetStep (fun d : Attrs => d)) s vals := rfl
+  rw [e]
+  refine ⟨key.1, ?_, ?_, key.2.2⟩
+  · intro n v hv hn
+    rw [key.2.1 n, if_pos hn, applyFor_unique _ vals n v _ hk hv]
+  · intro n hn
+    rw [key.2.1 n]
+    by_cases h : n ∈ s.eattrK
+    · rw [if_pos h]; exact applyFor_absent _ vals n _ (hn.resolve_right (fun x => x h))
+    · rw [if_neg h]
+
+/-- `set_edge_attributes(value, name)` with a constant -/
+theorem set_edge_attributes_const {s : HG} (h : WF s) (v : Val) (name : String) :
+    SameButEattr s (setEdgeAttrs s (.constName v name)).1 ∧
+    (∀ e ∈ s.edges, (setEdgeAttrs s (.constName v name)).1.eattr e = (s.eattr e).set name v) ∧
+    (setEdgeAttrs s (.constName v name)).2 = .ok := by
+  have key := foldl_updEdgeAttr [(name, v)] s.edges s h.nodupE
+  refine ⟨key.1, ?_, rfl⟩
+  intro n hn
+  have := key.2 n
+  rw [if_pos hn] at this
+  exact this
+
+theorem addNodesFrom_frozen (s : HG) (nodes : List (PyId × Option Attrs)) (a : Attrs) :
+    (addNodesFrom s nodes a).1.frozen = s.frozen := by
+  refine bulk_inv (fun t => t.frozen = s.frozen) _ ?_ nodes rfl
+  intro t it ht
+  obtain ⟨n, od⟩ := it
+  unfold addNodesItem; simp only []; split
+  · exact ht
+  · unfold updNodeAttr addNodeRaw; split <;> exact ht
+
+/-- `update(edges, nodes)`: the nodes are added first, then the edges, each exactly as by the bulk call; a raise in
+    the node part ends the call with the nodes added so far and no edge -/
+theorem update_effect (s : HG) (fmt : Fmt) (items : List EdgeItem) (nodes : List (PyId × Option Attrs))
+    (hn : nodes ≠ []) (hi : items ≠ []) (hf : s.frozen = false) :
+    update s (some (fmt, items)) nodes =
+      (if (addNodesFrom s nodes []).2.isErr then addNodesFrom s nodes []
+       else ((addEdgesFrom (addNodesFrom s nodes []).1 fmt items []).1,
+             (addNodesFrom s nodes []).2.join (addEdgesFrom (addNodesFrom s nodes []).1 fmt items []).2)) := by
+  have h1 : nodes.isEmpty = false := by cases nodes <;> simp_all
+  have h2 : items.isEmpty = false := by cases items <;> simp_all
+  have h3 := addNodesFrom_frozen s nodes []
+  simp only [update, h1, h2, guardF, hf, andThen, Bool.false_eq_true, if_false, h3]
+
+/-- an absent part of `update` is skipped -/
+theorem update_nodes_only (s : HG) (nodes : List (PyId × Option Attrs)) (hn : nodes ≠ []) (hf : s.frozen = false) :
+    update s none nodes =
+      (if (addNodesFrom s nodes []).2.isErr then addNodesFrom s nodes []
+       else ((addNodesFrom s nodes []).1, (addNodesFrom s nodes []).2.join .ok)) := by
+  have h1 : nodes.isEmpty = false := by cases nodes <;> simp_all
+  simp only [update, h1, guardF, hf, andThen, Bool.false_eq_true, if_false]
 
 /-! ### degree- and size-preserving moves -/
 
